@@ -51,6 +51,9 @@ pub enum AddDefect {
 pub enum RemDefect {
     WrongPrevHeader,
     WrongPrevFilterHeader,
+    /// the previous filter header claimed to be all zeros (which would switch proof checking off)
+    /// together with a proof attested by an untrusted key only
+    ZeroPrevFilterHeader,
     UntrustedKey,
     TooFewOracles,
     ProofForOtherBlock,
@@ -94,6 +97,10 @@ pub struct C13Cfg {
     /// network maximum / 2^s: (r, s)
     #[serde(default)]
     pub retarget: Option<(u32, u32)>,
+    /// the tracker is told to allow reorganisations deeper than its memory (the testnet default);
+    /// while previous headers *are* remembered the supplied ones must still equal them
+    #[serde(default)]
+    pub deep_reorgs: bool,
 }
 
 /// shift a target whose significant bits sit in the upper half (all targets used here do)
@@ -199,7 +206,7 @@ impl Model for C13Model {
     }
 
     fn name(&self) -> String {
-        format!("chain13(oracles={},L={}{}{}{})", self.cfg.oracles, self.cfg.max_chain, if self.cfg.streamed { ",streamed" } else { "" }, if self.cfg.restart { ",restart" } else { "" }, if self.cfg.prefill > 0 { format!(",prefill={}", self.cfg.prefill) } else { String::new() }) + &match self.cfg.retarget { Some((r, sh)) => format!(",checkpoint {} before a retarget, tip target max/2^{}", r, sh), None => String::new() }
+        format!("chain13(oracles={},L={}{}{}{})", self.cfg.oracles, self.cfg.max_chain, if self.cfg.streamed { ",streamed" } else { "" }, if self.cfg.restart { ",restart" } else { "" }, if self.cfg.prefill > 0 { format!(",prefill={}", self.cfg.prefill) } else { String::new() }) + &match self.cfg.retarget { Some((r, sh)) => format!(",checkpoint {} before a retarget, tip target max/2^{}", r, sh), None => String::new() } + if self.cfg.deep_reorgs { ",deep reorgs allowed" } else { "" }
     }
 
     fn init(&self) -> C13State {
@@ -225,6 +232,9 @@ impl Model for C13Model {
             node.get_persister().update_tracker(&node.get_id(), &t).expect("store the checkpoint tracker");
             drop(t);
             w.end_request();
+        }
+        if self.cfg.deep_reorgs {
+            w.node.get_tracker().set_allow_deep_reorgs(true);
         }
         let f = fund_channel(&w, 1, false, false);
         let mut chain = w.new_sim_chain();
@@ -319,6 +329,7 @@ impl Model for C13Model {
         for d in [
             RemDefect::WrongPrevHeader,
             RemDefect::WrongPrevFilterHeader,
+            RemDefect::ZeroPrevFilterHeader,
             RemDefect::UntrustedKey,
             RemDefect::TooFewOracles,
             RemDefect::ProofForOtherBlock,
@@ -328,6 +339,10 @@ impl Model for C13Model {
                 continue;
             }
             if !rem_checked && !matches!(d, RemDefect::WrongPrevHeader | RemDefect::WrongPrevFilterHeader) {
+                continue;
+            }
+            if d == RemDefect::ZeroPrevFilterHeader && !rem_checked {
+                // the remembered previous filter header is itself all zeros: not a defect
                 continue;
             }
             v.push(Op::RemoveBad(d));
@@ -522,6 +537,11 @@ impl Model for C13Model {
             }
             Op::Remove(delivery) => {
                 match self.valid_remove_proof(s, &attestors) {
+                    None if self.cfg.deep_reorgs => {
+                        // with deep reorganisations allowed the tracker takes the caller's word
+                        // for what lies below its memory: outside what is checked here
+                        return;
+                    }
                     None => {
                         // nothing above the base: the tracker has no previous header; ask anyway
                         // with made-up previous headers -- must be refused (reorg too deep)
@@ -565,6 +585,11 @@ impl Model for C13Model {
                 let (proof, prev2) = match d {
                     RemDefect::WrongPrevHeader => (good, Headers(BlockHeader { nonce: prev.0.nonce.wrapping_add(1), ..prev.0 }, prev.1)),
                     RemDefect::WrongPrevFilterHeader => (good, Headers(prev.0, FilterHeader::from_byte_array([0x33; 32]))),
+                    RemDefect::ZeroPrevFilterHeader => {
+                        let zero = FilterHeader::from_byte_array([0; 32]);
+                        let (txids, ops) = s.w().node.get_tracker().get_all_reverse_watches();
+                        (make_proof(&block, height, &zero, &[oracle_key(9)], &ops, &txids), Headers(prev.0, zero))
+                    }
                     RemDefect::UntrustedKey => {
                         expect_accept = !checked || trusted.is_empty();
                         let (txids, ops) = s.w().node.get_tracker().get_all_reverse_watches();
@@ -724,26 +749,29 @@ pub fn strip_saw_block(mut v: serde_json::Value) -> serde_json::Value {
 pub fn configs(tier: Tier) -> Vec<C13Cfg> {
     match tier {
         Tier::Quick => vec![
-            C13Cfg { oracles: 3, max_chain: 3, streamed: false, restart: false, prefill: 0, retarget: None },
-            C13Cfg { oracles: 1, max_chain: 2, streamed: true, restart: true, prefill: 0, retarget: None },
-            C13Cfg { oracles: 1, max_chain: 1, streamed: false, restart: false, prefill: 101, retarget: None },
-            C13Cfg { oracles: 1, max_chain: 2, streamed: false, restart: false, prefill: 0, retarget: Some((1, 6)) },
-            C13Cfg { oracles: 1, max_chain: 1, streamed: false, restart: false, prefill: 0, retarget: Some((0, 1)) },
+            C13Cfg { oracles: 3, max_chain: 3, streamed: false, restart: false, prefill: 0, retarget: None, deep_reorgs: false },
+            C13Cfg { oracles: 1, max_chain: 2, streamed: true, restart: true, prefill: 0, retarget: None, deep_reorgs: false },
+            C13Cfg { oracles: 1, max_chain: 1, streamed: false, restart: false, prefill: 101, retarget: None, deep_reorgs: false },
+            C13Cfg { oracles: 1, max_chain: 2, streamed: false, restart: false, prefill: 0, retarget: Some((1, 6)), deep_reorgs: false },
+            C13Cfg { oracles: 1, max_chain: 1, streamed: false, restart: false, prefill: 0, retarget: Some((0, 1)), deep_reorgs: false },
+            C13Cfg { oracles: 1, max_chain: 2, streamed: false, restart: false, prefill: 0, retarget: None, deep_reorgs: true },
         ],
         Tier::Thorough => vec![
-            C13Cfg { oracles: 0, max_chain: 3, streamed: true, restart: false, prefill: 0, retarget: None },
-            C13Cfg { oracles: 1, max_chain: 4, streamed: true, restart: true, prefill: 0, retarget: None },
-            C13Cfg { oracles: 2, max_chain: 3, streamed: false, restart: false, prefill: 0, retarget: None },
-            C13Cfg { oracles: 3, max_chain: 4, streamed: true, restart: true, prefill: 0, retarget: None },
-            C13Cfg { oracles: 4, max_chain: 3, streamed: false, restart: false, prefill: 0, retarget: None },
-            C13Cfg { oracles: 2, max_chain: 2, streamed: true, restart: true, prefill: 101, retarget: None },
-            C13Cfg { oracles: 1, max_chain: 3, streamed: false, restart: true, prefill: 0, retarget: Some((0, 6)) },
-            C13Cfg { oracles: 1, max_chain: 3, streamed: false, restart: true, prefill: 0, retarget: Some((1, 6)) },
-            C13Cfg { oracles: 1, max_chain: 3, streamed: false, restart: true, prefill: 0, retarget: Some((2, 6)) },
-            C13Cfg { oracles: 1, max_chain: 2, streamed: false, restart: false, prefill: 0, retarget: Some((0, 0)) },
-            C13Cfg { oracles: 1, max_chain: 2, streamed: false, restart: false, prefill: 0, retarget: Some((0, 1)) },
-            C13Cfg { oracles: 1, max_chain: 2, streamed: false, restart: false, prefill: 0, retarget: Some((1, 2)) },
-            C13Cfg { oracles: 1, max_chain: 2, streamed: false, restart: false, prefill: 0, retarget: Some((0, 3)) },
+            C13Cfg { oracles: 0, max_chain: 3, streamed: true, restart: false, prefill: 0, retarget: None, deep_reorgs: false },
+            C13Cfg { oracles: 1, max_chain: 4, streamed: true, restart: true, prefill: 0, retarget: None, deep_reorgs: false },
+            C13Cfg { oracles: 2, max_chain: 3, streamed: false, restart: false, prefill: 0, retarget: None, deep_reorgs: false },
+            C13Cfg { oracles: 3, max_chain: 4, streamed: true, restart: true, prefill: 0, retarget: None, deep_reorgs: false },
+            C13Cfg { oracles: 4, max_chain: 3, streamed: false, restart: false, prefill: 0, retarget: None, deep_reorgs: false },
+            C13Cfg { oracles: 2, max_chain: 2, streamed: true, restart: true, prefill: 101, retarget: None, deep_reorgs: false },
+            C13Cfg { oracles: 1, max_chain: 3, streamed: false, restart: true, prefill: 0, retarget: Some((0, 6)), deep_reorgs: false },
+            C13Cfg { oracles: 1, max_chain: 3, streamed: false, restart: true, prefill: 0, retarget: Some((1, 6)), deep_reorgs: false },
+            C13Cfg { oracles: 1, max_chain: 3, streamed: false, restart: true, prefill: 0, retarget: Some((2, 6)), deep_reorgs: false },
+            C13Cfg { oracles: 1, max_chain: 2, streamed: false, restart: false, prefill: 0, retarget: Some((0, 0)), deep_reorgs: false },
+            C13Cfg { oracles: 1, max_chain: 2, streamed: false, restart: false, prefill: 0, retarget: Some((0, 1)), deep_reorgs: false },
+            C13Cfg { oracles: 1, max_chain: 2, streamed: false, restart: false, prefill: 0, retarget: Some((1, 2)), deep_reorgs: false },
+            C13Cfg { oracles: 1, max_chain: 2, streamed: false, restart: false, prefill: 0, retarget: Some((0, 3)), deep_reorgs: false },
+            C13Cfg { oracles: 2, max_chain: 3, streamed: false, restart: false, prefill: 0, retarget: None, deep_reorgs: true },
+            C13Cfg { oracles: 1, max_chain: 2, streamed: true, restart: false, prefill: 0, retarget: None, deep_reorgs: true },
         ],
     }
 }
